@@ -19,7 +19,7 @@ import asyncio
 from bumble import controller as _controller
 from bumble import core, hci, ll
 from pyvc import ext_c06
-from pyvc.contracts import (Any, Bool, Bytes, Callback, ConcList, Const, Inst, Int, IntRange, OneOf, Opaque, Opt, Str, MapOf,
+from pyvc.contracts import (Any, Bool, ByteArray, Bytes, Callback, ConcList, Const, Inst, Int, IntRange, OneOf, Opaque, Opt, Str, MapOf,
                             contract, forall, iff, implies, lemma, mget, mhas, model, same)
 from pyvc.ext_c06 import all_keys, any_key, holds
 
@@ -306,7 +306,19 @@ model('ghost:TimerHandle', fields={}, methods={'cancel': Callback('cancel', effe
 model('ghost:Link', fields={}, methods={'send_advertising_pdu': Callback('send_advertising_pdu', effect=link_send_adv)})
 # the advertiser's back-reference to its controller: only the two own addresses are read through it
 CTRL_ADDR = 'bumble.controller:Controller#addr'
-model(CTRL_ADDR, fields=dict(_public_address=ADDR, _random_address=ADDR))
+
+
+def adv_tx(ghost, packet):
+    """Controller.send_advertising_pdu(packet): what an advertiser puts on the air"""
+    ghost.pdus = ghost.pdus + 1
+    ghost.pdu_is_adv_ind = isinstance(packet, ll.AdvInd)
+    ghost.pdu_address = packet.advertiser_address
+    ghost.pdu_data = packet.data
+    ghost.pdu_scan_rsp = getattr(packet, 'scan_response_data', None)
+
+
+ADV_TX_GHOST = dict(pdus=Int, pdu_is_adv_ind=Bool, pdu_address=ADDR, pdu_data=Bytes, pdu_scan_rsp=Opt(Bytes))
+model(CTRL_ADDR, fields=dict(_public_address=ADDR, _random_address=ADDR, link=LOpt(Inst('ghost:Link'))), methods={'send_advertising_pdu': Callback('send_advertising_pdu', effect=adv_tx)})
 LEGACY = 'bumble.controller:LegacyAdvertiser'
 model(LEGACY, fields=dict(controller=Inst(CTRL_ADDR), own_address_type=IntRange(0, 3), enabled=Bool, timer_handle=LOpt(Inst('ghost:TimerHandle')),
                           advertising_type=IntRange(0, 4), advertising_data=Bytes, scan_response_data=Bytes))
@@ -314,7 +326,7 @@ ADV_PARAMS = 'bumble.hci:HCI_LE_Set_Extended_Advertising_Parameters_Command#c06'
 model(ADV_PARAMS, fields=dict(own_address_type=IntRange(0, 3)))
 ADVSET = 'bumble.controller:AdvertisingSet'
 model(ADVSET, fields=dict(controller=Inst(CTRL_ADDR), handle=IntRange(0, 0xEF), parameters=LOpt(Inst(ADV_PARAMS)), enabled=Bool,
-                          timer_handle=LOpt(Inst('ghost:TimerHandle')), random_address=LOpt(ADDR)))
+                          timer_handle=LOpt(Inst('ghost:TimerHandle')), random_address=LOpt(ADDR), data=ByteArray, scan_response_data=ByteArray))
 CREATE = 'bumble.hci:HCI_LE_Create_Connection_Command#c06'
 model(CREATE, fields=dict(peer_address=ADDR, own_address_type=IntRange(0, 3), connection_interval_min=Int, max_latency=Int, supervision_timeout=Int))
 EXT_CREATE = 'bumble.hci:HCI_LE_Extended_Create_Connection_Command#c06'
@@ -1155,8 +1167,8 @@ model(
 # the advertising PDU as it travels on the virtual link.  `scan_response_data` is what the advertiser would answer a
 # SCAN_REQ with: the unchanged tree has no such field on the PDU (the data never leaves the advertiser), which is
 # exactly what the scan-response clauses below detect
-ADV_IND = 'bumble.ll:AdvInd'
-ADV_EXT_IND = 'bumble.ll:AdvExtInd'
+ADV_IND = 'bumble.ll:AdvInd#rx'
+ADV_EXT_IND = 'bumble.ll:AdvExtInd#rx'
 model(ADV_IND, fields=dict(advertiser_address=ADDR, data=Bytes, scan_response_data=Bytes))
 model(ADV_EXT_IND, fields=dict(advertiser_address=ADDR, data=Bytes, scan_response_data=Bytes, target_address=LOpt(ADDR)))
 EXT_ADV_FEATURE = int(hci.LeFeatureMask.LE_EXTENDED_ADVERTISING)
@@ -1184,8 +1196,9 @@ def adv_pdu_ensures(self, pdu, ghost, old):
         implies(scanning, ghost.adv_report_address == pdu.advertiser_address and ghost.adv_report_data == pdu.data and ghost.adv_report_extended == extended),
         # a scan response is reported only when scanning actively ...
         ghost.rsp_reports == old.ghost.rsp_reports + (1 if scanning and self.le_scan_type == ACTIVE_SCAN else 0),
-        # ... and carries the advertiser's scan-response data byte for byte
-        implies(ghost.rsp_reports > old.ghost.rsp_reports, ghost.rsp_report_address == pdu.advertiser_address and ghost.rsp_report_data == pdu.scan_response_data),
+        # ... names the advertiser and carries its scan-response data byte for byte
+        implies(ghost.rsp_reports > old.ghost.rsp_reports, ghost.rsp_report_address == pdu.advertiser_address and ghost.rsp_report_extended == extended),
+        implies(ghost.rsp_reports > old.ghost.rsp_reports, ghost.rsp_report_data == pdu.scan_response_data),
         # an initiator connects to the advertiser it asked for and to nobody else
         ghost.cc == old.ghost.cc + (1 if connect else 0),
         implies(connect, ghost.cc_peer == pdu.advertiser_address and ghost.cc_role == CENTRAL and mhas(self.le_connections, pdu.advertiser_address)),
@@ -1195,15 +1208,17 @@ def adv_pdu_ensures(self, pdu, ghost, old):
 
 
 ADV_PDU_NAMES = ['one-advertising-report-iff-scanning', 'advertising-report-carries-address-and-advertising-data', 'scan-response-report-iff-scanning-actively',
-                 'scan-response-report-carries-the-scan-response-data', 'connects-iff-this-advertiser-was-asked-for', 'connection-is-to-that-advertiser',
+                 'scan-response-report-names-the-advertiser', 'scan-response-report-carries-the-scan-response-data', 'connects-iff-this-advertiser-was-asked-for', 'connection-is-to-that-advertiser',
                  'otherwise-no-connection-attempt'] + INV_POST_NAMES
 
-for _pdu, _pname in ((ADV_IND, 'AdvInd'), (ADV_EXT_IND, 'AdvExtInd')):
+# (the connection part reads only pdu.advertiser_address, whatever the PDU class: it is verified with AdvInd; the AdvExtInd
+# variant covers the reports, which also carry the PDU's target address, with no LE Create Connection pending)
+for _pdu, _pname, _self in ((ADV_IND, 'AdvInd', Inst(CTRL_SCAN)), (ADV_EXT_IND, 'AdvExtInd', Inst(CTRL_SCAN, pending_le_connection=Const(None)))):
     contract(
         'bumble.controller:Controller.on_advertising_pdu',
         key=f'bumble.controller:Controller.on_advertising_pdu@{_pname}',
         prop='C06',
-        params=dict(self=Inst(CTRL_SCAN), pdu=Inst(_pdu)),
+        params=dict(self=_self, pdu=Inst(_pdu)),
         ghost=dict(SEND_GHOST, **LINK_GHOST, **REPORT_GHOST),
         ensures=adv_pdu_ensures,
         ensures_names=ADV_PDU_NAMES,
@@ -1532,6 +1547,55 @@ contract(
           'bumble.controller:Controller.find_connection_by_handle@callee', 'bumble.controller:Controller.find_classic_sco_link_by_handle@callee',
           'bumble.controller:Controller.on_le_disconnected', 'bumble.controller:Connection.send_ll_control_pdu@callee'],
     inline=['Controller.find_iso_link_by_handle', 'Controller._send_hci_command_status'],
-    feas_timeout_ms=400,
+    feas_timeout_ms=150,
     native_setup=nat_disc,
+)
+
+
+# ===========================================================================
+# what an advertiser puts on the air
+# ===========================================================================
+ADV_TYPE = hci.HCI_LE_Set_Advertising_Parameters_Command.AdvertisingType
+ADV_TX_MOD = ['ghost.' + n for n in ADV_TX_GHOST]
+
+
+def adv_address(adv):
+    return adv.controller._public_address if adv.own_address_type == PUBLIC_ADDRESS_TYPE else adv.controller._random_address
+
+
+contract(
+    'bumble.controller:LegacyAdvertiser.send_advertising_data',
+    prop='C06',
+    params=dict(self=Inst(LEGACY)),
+    ghost=ADV_TX_GHOST,
+    ensures=lambda self, ghost, old: [
+        # a disabled advertiser is silent
+        implies(not self.enabled, ghost.pdus == old.ghost.pdus),
+        # an enabled advertiser whose advertising type carries data (ADV_IND, ADV_SCAN_IND, ADV_NONCONN_IND) puts it on the air, under its address
+        implies(self.enabled and self.advertising_type in (int(ADV_TYPE.ADV_IND), int(ADV_TYPE.ADV_SCAN_IND), int(ADV_TYPE.ADV_NONCONN_IND)),
+                ghost.pdus == old.ghost.pdus + 1 and ghost.pdu_address == adv_address(self) and ghost.pdu_data == self.advertising_data),
+        # ... together with what it would answer a scan request with (scannable types: ADV_IND, ADV_SCAN_IND)
+        implies(ghost.pdus > old.ghost.pdus and self.advertising_type in (int(ADV_TYPE.ADV_IND), int(ADV_TYPE.ADV_SCAN_IND)), ghost.pdu_scan_rsp == self.scan_response_data),
+    ],
+    ensures_names=['disabled-advertiser-is-silent', 'advertising-data-on-the-air-under-the-advertisers-address', 'scan-response-data-available-to-scanners'],
+    modifies=ADV_TX_MOD,
+    inline=['LegacyAdvertiser.address', 'Controller.public_address', 'Controller.random_address'],
+    native_setup=nat_fix,
+)
+contract(
+    'bumble.controller:AdvertisingSet.send_extended_advertising_data',
+    prop='C06',
+    params=dict(self=Inst(ADVSET)),
+    ghost=ADV_TX_GHOST,
+    ensures=lambda self, ghost, old: [
+        ghost.pdus == old.ghost.pdus + (1 if self.controller.link is not None else 0),
+        implies(self.controller.link is not None, set_address_is(self.controller, self, ghost.pdu_address) and ghost.pdu_data == bytes(self.data)),
+        implies(self.controller.link is not None, ghost.pdu_scan_rsp == bytes(self.scan_response_data)),
+    ],
+    ensures_names=['one-pdu-when-attached-to-a-link', 'advertising-data-on-the-air-under-the-sets-address', 'scan-response-data-available-to-scanners'],
+    # a set that was enabled without parameters / without the random address its parameters ask for has no address
+    raises={AssertionError: lambda self, ghost, old: [ghost.pdus == old.ghost.pdus, self.parameters is None or (self.parameters.own_address_type != PUBLIC_ADDRESS_TYPE and self.random_address is None)]},
+    modifies=ADV_TX_MOD,
+    inline=['AdvertisingSet.address', 'Controller.public_address', 'Controller.random_address'],
+    native_setup=nat_fix,
 )
